@@ -305,6 +305,8 @@ fn build_context_evaluator(scope: &Scope, context: &Context) -> Result<Evaluator
   }
   scope.pop();
   Ok(Box::new(move |scope: &Scope| {
+    // the entries are visible to the following entries only, like they were while building
+    scope.push(FeelContext::default());
     let mut evaluated_context = FeelContext::default();
     for (opt_name, evaluator) in &entry_evaluators {
       match opt_name {
@@ -314,10 +316,13 @@ fn build_context_evaluator(scope: &Scope, context: &Context) -> Result<Evaluator
           evaluated_context.set_entry(name, value);
         }
         None => {
-          return evaluator(scope);
+          let value = evaluator(scope);
+          scope.pop();
+          return value;
         }
       }
     }
+    scope.pop();
     Value::Context(evaluated_context)
   }))
 }
